@@ -31,6 +31,16 @@ def _verif_record_incoherence(trial, prop_data, wave_data):
     return prop_data
 
 
+def _bare_exp_h1(dt, h1):
+    """exp(-dt h1[s] / 2) for both spins."""
+    return jnp.array(
+        [
+            jsp.linalg.expm(-dt * h1[0] / 2.0),
+            jsp.linalg.expm(-dt * h1[1] / 2.0),
+        ]
+    )
+
+
 @dataclass
 class propagator(ABC):
     """Abstract base class for propagator classes.
@@ -552,6 +562,16 @@ class propagator_cpmc(propagator_unrestricted):
             [[jnp.exp(gamma), jnp.exp(-gamma)], [jnp.exp(-gamma), jnp.exp(gamma)]]
         )
         return prop_data
+
+    @partial(jit, static_argnums=(0, 2))
+    def _build_propagation_intermediates(
+        self, ham_data: dict, trial: wave_function, wave_data: dict
+    ) -> dict:
+        ham_data = super()._build_propagation_intermediates(ham_data, trial, wave_data)
+        # the discrete Hubbard-Stratonovich fields carry the whole interaction, so the
+        # half steps propagate with the bare one-body term (no v0 / mean-field subtraction)
+        ham_data["exp_h1"] = _bare_exp_h1(self.dt, ham_data["h1"])
+        return ham_data
 
     @partial(jit, static_argnums=(0, 1))
     def propagate_one_body(
@@ -1279,6 +1299,14 @@ class propagator_cpmc_nn_slow(propagator_unrestricted):
             ]
         )
         return prop_data
+
+    @partial(jit, static_argnums=(0, 2))
+    def _build_propagation_intermediates(
+        self, ham_data: dict, trial: wave_function, wave_data: dict
+    ) -> dict:
+        ham_data = super()._build_propagation_intermediates(ham_data, trial, wave_data)
+        ham_data["exp_h1"] = _bare_exp_h1(self.dt, ham_data["h1"])
+        return ham_data
 
     @partial(jit, static_argnums=(0, 1))
     def propagate(
